@@ -108,7 +108,16 @@ def main():
     for pid in ALL:
         if pid in P.REGISTRY:
             engines.setdefault(DESC[pid]["engine"], []).append(pid)
+    # secondary uses of an engine by other properties' checks
+    for e, ps in {"olc_conc": ["C10", "C16"], "qsbr_conc": ["C16"], "oom": ["C14"], "qsbr_free": ["C05", "C06"], "lincheck_test": ["C03", "C09", "C13"]}.items():
+        for pid in ps:
+            if pid in P.REGISTRY and pid not in engines.setdefault(e, []):
+                engines[e].append(pid)
+    for e in engines:
+        engines[e].sort()
     kinds = {
+        "qsbr_free": "free-running RCU-style stress of the real QSBR under ThreadSanitizer / AddressSanitizer with exactly-once counters",
+        "lincheck_test": "self-test of the linearizability checker against brute force (a disagreement makes the run inconclusive)",
         "seqmodel": "single-threaded model-based differential driver (reference map + reference trie), sanitized",
         "olc_conc": "serialized token scheduler on hook points + history oracles; free-running sanitizer stress",
         "qsbr_conc": "serialized scheduler over QSBR actions with trace-rule and reference oracles",
